@@ -81,3 +81,7 @@ def run(ctx):
 
 # sensitivity pack (thorough tier): each seeded edit must be reported by the named rule instance
 MUTANTS = [{'name': 'size-guard-dropped', 'file': 'src/inscriptions/inscription.rs', 'old': '        if value.len() + n > max {\n          return None;\n        }\n', 'new': '', 'expect': ('R28.1', 'properties_cbor', 'dominated by the size guard')}]
+
+
+# behaviour-preserving edits (thorough tier): the rules must stay silent on every one of them
+NEUTRAL = [{'name': 'properties_cbor: size test written the other way round', 'file': 'src/inscriptions/inscription.rs', 'old': '        if value.len() + n > max {\n          return None;\n        }', 'new': '        let grown = value.len() + n;\n        if max < grown {\n          return None;\n        }'}]
